@@ -63,8 +63,9 @@ fn exec_ops(cfg: &Cfg, ops: &[OpT]) -> (String, Vec<String>) {
         let mut prev_round: Vec<u16> = vec![];
         let mut last_of_prev: Option<u16> = None;
         let dublin6 = cfg.proto == Protocol::Udp && cfg.strategy == MultipathStrategy::Dublin && cfg.target.is_ipv6();
-        let mut record = |p: &Probe, round_seqs: &mut Vec<u16>, fails: &mut Vec<String>, issued: &mut Vec<String>, last_of_prev: Option<u16>| {
+        let mut record = |p: &Probe, round_seqs: &mut Vec<u16>, fails: &mut Vec<String>, issued: &mut Vec<String>, last_of_prev: Option<u16>, prev_round: &Vec<u16>| {
             let q = p.sequence.0;
+            if prev_round.contains(&q) && fails.len() < 4 { fails.push(format!("C07:sequence_{q}_of_the_previous_round_is_issued_again_in_the_current_one")); }
             if let Some(l) = round_seqs.last() {
                 if q != l.wrapping_add(1) || *l == u16::MAX { fails.push(format!("C07:sequence_{q}_after_{l}")); }
             } else if let Some(lp) = last_of_prev {
@@ -81,8 +82,8 @@ fn exec_ops(cfg: &Cfg, ops: &[OpT]) -> (String, Vec<String>) {
         };
         for op in ops {
             match op {
-                OpT::Next(t) => { let p = h.next_probe(vclock::from_ns(*t)); record(&p, &mut round_seqs, &mut fails, &mut issued, last_of_prev); }
-                OpT::Reissue(t) => { let p = h.reissue_probe(vclock::from_ns(*t)); record(&p, &mut round_seqs, &mut fails, &mut issued, last_of_prev); }
+                OpT::Next(t) => { let p = h.next_probe(vclock::from_ns(*t)); record(&p, &mut round_seqs, &mut fails, &mut issued, last_of_prev, &prev_round); }
+                OpT::Reissue(t) => { let p = h.reissue_probe(vclock::from_ns(*t)); record(&p, &mut round_seqs, &mut fails, &mut issued, last_of_prev, &prev_round); }
                 OpT::Fail => h.fail_probe(),
                 OpT::Advance(t) => {
                     dumps.push(dump(&h));
